@@ -319,8 +319,15 @@ class Ctx:
         when replayed again after all the others (state kept by the library across calls) comes back failing, marked
         "history": judge reproduces it by running the whole stage again."""
         binp = self.go_build(race)
-        self.replay_n += 1
-        outp = os.path.join(self.out, "results_%s_%d.ndjson" % (name, self.replay_n))
+        lock = getattr(self, "_replay_lock", None)
+        if lock:
+            with lock:
+                self.replay_n += 1
+                n = self.replay_n
+        else:
+            self.replay_n += 1
+            n = self.replay_n
+        outp = os.path.join(self.out, "results_%s_%d.ndjson" % (name, n))
         again = self.AGAIN if again is None else again
         cmd = ["timeout", str(timeout), binp, "-again", str(again), "-prop", name, "-cases", cases_path, "-out", outp,
                "-seed", str(self.seed), "-tier", self.tier]
@@ -358,6 +365,43 @@ class Ctx:
         log("replay %-20s cases=%d fails=%d again=%d %.1fs" % (name, len(res), sum(1 for x in res if not x["ok"]), nagain, time.time() - t0))
         return res
 
+    def replay_sharded(self, name, cases_path, shards=8, **kw):
+        """replay() over contiguous shards of the case file in parallel processes (stages whose cases are long and
+        independent). Results come back with their global index; a history-dependent failure remembers its shard."""
+        import threading
+        from concurrent.futures import ThreadPoolExecutor
+        lines = self.load_cases(cases_path)
+        shards = max(1, min(shards, len(lines)))
+        if shards == 1:
+            return self.replay(name, cases_path, **kw)
+        size = (len(lines) + shards - 1) // shards
+        parts = []
+        for k in range(shards):
+            chunk = lines[k * size:(k + 1) * size]
+            if not chunk:
+                continue
+            sp = "%s.shard%d" % (cases_path, k)
+            with open(sp, "w") as f:
+                f.write("\n".join(chunk) + "\n")
+            parts.append((k * size, sp))
+        if not hasattr(self, "_replay_lock"):
+            self._replay_lock = threading.Lock()
+        self.go_build(kw.get("race", False))   # once, before the threads
+
+        def one(part):
+            return part, self.replay(name, part[1], **kw)
+        out = [None] * len(lines)
+        with ThreadPoolExecutor(max_workers=len(parts)) as pool:
+            for (off, sp), res in pool.map(one, parts):
+                for r in res:
+                    if r.get("history"):
+                        r["shard_cases"], r["shard_i"] = sp, r["i"]
+                    r["i"] += off
+                    out[r["i"]] = r
+        if any(x is None for x in out):
+            raise Broken("sharded replay %s lost results" % name)
+        return out
+
     def load_cases(self, path):
         return [l.rstrip("\n") for l in open(path) if l.strip()]
 
@@ -393,6 +437,14 @@ class Ctx:
             if k.startswith("?stall:"):
                 nrep = min(nrep, 1)   # each reproduction of a stall costs the watchdog's full time
             for case, r in lst[:nrep]:
+                if r.get("history") and r.get("shard_cases"):
+                    again_res = self.replay(name, r["shard_cases"], race=race, extra=extra)
+                    r["cases_path"] = r["shard_cases"]
+                    if again_res[r["shard_i"]]["ok"]:
+                        raise Broken("history-dependent failure of %s case %d not reproducible by running its shard again: %s"
+                                     % (name, r["i"], json.dumps(r)[:500]))
+                    r["i"] = r["shard_i"]     # the replay file refers to the shard
+                    continue
                 if r.get("history"):
                     # the failure needs the history of the whole stage: reproduce it by running the whole stage again
                     if whole is None:
